@@ -108,5 +108,13 @@ def fill(claim, na):
         TB + "LLVM/numba code generation is a parameter; kernels with loops/complex arithmetic are not translated (listed in evidence) and are covered by the JIT-vs-interpreter test only.",
         "DESIGN.md 6/C18",
     )
-    for p in ["C01", "C03", "C04", "C09", "C10", "C16", "C19"]:
+    claim(
+        "C03",
+        "proof",
+        "translator (Python ast -> Lean KExpr, regenerated and Float-validated each run) + verified normaliser (polynomials in log(1-z) over powers of 1/(1-z), coefficients in Q[args0, zeta2, zeta3]) + kernel-decided coefficient identities on the generated terms, lifted by Mathlib calculus (HasDerivAt) to all x<1; structural theorem for from_distr_coeffs",
+        "For every x<1, every nf / log(Q2/m2) and every value of the symbolic constants: d loc/dx = -sing(x) for (A) every RSL.from_distr_coeffs coefficient list (188 live call sites), (B-exact) P_qq^(0), P_gg^(0), P_ns^(1), the asymptotic g1/F3 LL non-singlet; (B-approx) the eight Vogt NNLO/N3LO non-singlet triples with every residual coefficient bounded by 1e-4 relative (exact residual formula proved); (C) the seven local-only kernels do not depend on x. A changed constant changes the generated term and the kernel re-decides. Closures and the P_qq x P_qq triple (log z, Li2) are outside the fragment: checked numerically on the real functions with an nf-power decomposition.",
+        TB + "Known finding F20 (heavy NC N3LO regular parts are NaN: shipped grids contain NaN). Decimal literals are taken at their exact decimal value. Special functions li2/wgplg are uninterpreted.",
+        "DESIGN.md 6/C03",
+    )
+    for p in ["C01", "C04", "C09", "C10", "C16", "C19"]:
         na(p, "check not yet built in this round (design in DESIGN.md section 6); will be claimed once its Lean model, theorems and correspondence exist")
